@@ -387,6 +387,15 @@ def _from_dict_reads(fi: FuncInfo) -> dict[str, list[ast.AST]]:
     return dec
 
 
+DERIVED_KEYS = {
+    # keys that restate the object (ids, sizes, classifications): computed, not stored
+    "btclib.tx.tx.Tx": {"txid", "hash", "size", "vsize", "weight"},
+    "btclib.block.block_header.BlockHeader": {"target", "difficulty"},
+    "btclib.tx.tx_out.TxOut": {"addresses", "type"},
+    "btclib.psbt.psbt.Psbt": {"tx"},
+}
+
+
 def rule_dict_keys(ctx: Ctx, rep: Report) -> None:
     """C05.dict_keys: every key from_dict reads is one to_dict writes."""
     rule = "C05.dict_keys"
@@ -399,6 +408,13 @@ def rule_dict_keys(ctx: Ctx, rep: Report) -> None:
         for k in sorted(dec):
             rep.ob(rule, f"{ci.qualname}[{k!r}]", k in enc, ci.methods["from_dict"].where(dec[k][0]),
                    "key written by to_dict" if k in enc else f"from_dict reads {k!r}, to_dict writes {sorted(enc)}")
+        # the converse: a key to_dict writes and from_dict never reads is information the JSON form loses,
+        # unless it is derived from the other fields (frozen table)
+        derived = DERIVED_KEYS.get(ci.qualname, set())
+        for k in sorted(set(enc) - set(dec)):
+            rep.ob(rule, f"{ci.qualname}[{k!r}]:read_back", k in derived, ci.methods["to_dict"].where(),
+                   "derived from the other fields (not read back by design)" if k in derived else
+                   f"to_dict writes {k!r} but from_dict never reads it: the value is lost on the JSON round trip")
         # from_dict wraps its argument (JSON boundary helper) before the first subscript
         fd = ci.methods["from_dict"]
         wrap = ctx.calls_to(fd, "btclib.utils.fields_from_json_object")
@@ -650,6 +666,25 @@ def rule_sorted_maps(ctx: Ctx, rep: Report) -> None:
     rep.floor(rule, 4)
 
 
+def rule_count_bounds(ctx: Ctx, rep: Report) -> None:
+    """C05.count_bounds: parse refuses a count exactly where assert_valid refuses
+    the length -- what serialize can write, parse reads back."""
+    from sa.ranges import refusal_constraints
+    rule = "C05.count_bounds"
+    for ci in _codec_classes(ctx, "parse", "assert_valid"):
+        pc = [c for c in refusal_constraints(ctx, ci.methods["parse"]) if c.op in (">", ">=", "<", "<=") and c.value_text.split(" |")[0].isidentifier() and c.value_text.split(" |")[0].isupper()]
+        vc = [c for c in refusal_constraints(ctx, ci.methods["assert_valid"]) if c.op in (">", ">=", "<", "<=") and c.value_text.split(" |")[0].isidentifier() and c.value_text.split(" |")[0].isupper()]
+        for c in pc:
+            const = c.value_text.split(" |")[0]
+            tw = [v for v in vc if v.value_text.split(" |")[0] == const and v.subject.startswith("len(")]
+            if not tw:
+                continue
+            ok = any(v.op == c.op for v in tw)
+            rep.ob(rule, f"{ci.qualname}:{const}", ok, ci.methods["parse"].where(c.node),
+                   f"parse refuses {c.subject} {c.op} {const}, assert_valid refuses {tw[0].subject} {tw[0].op} {const}" + ("" if ok else ": an object that is valid and serializes does not parse back (or the reverse)"))
+    rep.floor(rule, 8)
+
+
 RULES = [
     ("C05.layout", rule_layout),
     ("C05.compactsize", rule_compactsize),
@@ -660,6 +695,7 @@ RULES = [
     ("C05.codec_pairs", rule_codec_pairs),
     ("C05.psbt_tables", rule_psbt_tables),
     ("C05.sorted_maps", rule_sorted_maps),
+    ("C05.count_bounds", rule_count_bounds),
 ]
 
 
@@ -671,6 +707,8 @@ def _flip_signed(qual: str, index: int = 0):
 
 
 CONTROLS = [
+    {"rule": "C05.count_bounds", "name": "Headers.parse refuses a full message", "module": "btclib.p2p.inventory",
+     "edit": lambda ctx: M.sub_expr(ctx, "btclib.p2p.inventory.Headers.parse", M.is_text("count > MAX_HEADERS_RESULTS"), "count >= MAX_HEADERS_RESULTS")},
     {"rule": "C05.layout", "name": "TxOut.parse reads value unsigned", "module": "btclib.tx.tx_out",
      "edit": _flip_signed("btclib.tx.tx_out.TxOut.parse")},
     {"rule": "C05.layout", "name": "Version.serialize writes timestamp unsigned", "module": "btclib.p2p.handshake",
@@ -688,6 +726,8 @@ CONTROLS = [
      "edit": lambda ctx: M.drop_if(ctx, "btclib.p2p.handshake.Version.parse", lambda n: "octet[0] > 1" in norm(n.test))},
     {"rule": "C05.dict_keys", "name": "TxIn.from_dict reads a key to_dict does not write", "module": "btclib.tx.tx_in",
      "edit": lambda ctx: M.sub_expr(ctx, "btclib.tx.tx_in.TxIn.from_dict", M.is_text("dict_['sequence']"), "dict_['nSequence']")},
+    {"rule": "C05.dict_keys", "name": "TxOut.from_dict forgets the network", "module": "btclib.tx.tx_out",
+     "edit": lambda ctx: M.sub_expr(ctx, "btclib.tx.tx_out.TxOut.from_dict", lambda n: isinstance(n, ast.Call) and norm(n) == "dict_.get('network', 'mainnet')", "'mainnet'")},
     {"rule": "C05.codec_pairs", "name": "PsbtOut.from_dict decodes taproot paths with the plain decoder", "module": "btclib.psbt.psbt_out",
      "edit": lambda ctx: M.sub_expr(ctx, "btclib.psbt.psbt_out.PsbtOut.from_dict",
                                     lambda n: isinstance(n, ast.Name) and n.id == "taproot_bip32_from_dict", "decode_from_bip32_derivs")},
